@@ -100,6 +100,17 @@ func correlatedBody(kind string, nreq int, planSet []int, idShapes ...int) nd.Bo
 			}
 			consume[i] = c.Choose(3, "consume")
 		}
+		// without a canceller a call can only end with its reply: a reply that is
+		// lost on the way (consumed by nobody) leaves the call waiting for good,
+		// which the scheduler reports as a deadlock
+		withCanceller := c.Choose(2, "nobody-cancels") == 0
+		if !withCanceller {
+			for _, p := range planOf {
+				if pl := plans[p]; pl == "never" || pl == "reply-deferred" {
+					return nd.Result{Skip: true}
+				}
+			}
+		}
 		ns := stanza.NSClient
 		outs := make([]reqOutcome, nreq)
 		var handled []seenStanza
@@ -279,12 +290,14 @@ func correlatedBody(kind string, nreq int, planSet []int, idShapes ...int) nd.Bo
 			for i := 0; i < nreq; i++ {
 				ctxs[i], cancels[i] = context.WithCancel(context.Background())
 			}
-			vs.GoNamed("canceller", false, func() {
-				for i := 0; i < nreq; i++ {
-					vs.Yield("cancel")
-					cancels[i]()
-				}
-			})
+			if withCanceller {
+				vs.GoNamed("canceller", false, func() {
+					for i := 0; i < nreq; i++ {
+						vs.Yield("cancel")
+						cancels[i]()
+					}
+				})
+			}
 			// the last requester runs in the main thread
 			for i := 0; i < nreq-1; i++ {
 				i := i
